@@ -62,6 +62,9 @@ def expand(chars, m=None, nat=None):
             elif kind == 'Flt':
                 p = c[1]
                 if isinstance(p, tuple) and p[0] == 'float': p = p[1]
+                if isinstance(p, str):
+                    import struct
+                    p = struct.unpack('<Q', struct.pack('<d', float(p)))[0] if c[2] == 'f64' else struct.unpack('<I', struct.pack('<f', float(p)))[0]
                 bits = p if isinstance(p, int) else model_int(m, p)
                 out.extend(ord(ch) for ch in nat.ask({'op': 'fmt_float', 'bits': bits, 'ty': c[2]})['s'])
             elif kind == 'Bool':
